@@ -709,6 +709,7 @@ class SyncState:  # pylint: disable=too-many-instance-attributes, too-many-publi
         self._paths: Tuple[Dict[str, Dict[Any, SyncEntry]], Dict[str, Dict[Any, SyncEntry]]] = ({}, {})
         self._changeset_storage: Set[SyncEntry] = set()
         self._dirtyset: Set[SyncEntry] = set()
+        self._kids_moving: List[SyncEntry] = []    # folders whose kids are being moved (innermost last), see _update_kids
         self._storage: Optional[Storage] = storage
         self._tag = tag
         self._nmgr = nmgr or NotificationManager(lambda e: None)
@@ -853,11 +854,20 @@ class SyncState:  # pylint: disable=too-many-instance-attributes, too-many-publi
                 ent.priority = new_priority
 
     def _update_kids(self, ent, side, prior_path, path, provider: 'Provider'):
+        # an entry whose own move is still in progress further up the stack is nobody's kid: in a stale or cyclic tree the
+        # new path of a folder being moved can lie beneath the old path of one of its kids, and the two moved each other for ever
+        self._kids_moving.append(ent)
+        try:
+            self._update_kids_of(ent, side, prior_path, path, provider)
+        finally:
+            self._kids_moving.pop()
+
+    def _update_kids_of(self, ent, side, prior_path, path, provider: 'Provider'):
         if ent[side].otype == DIRECTORY and prior_path != path and not prior_path is None:
             # changing directory also changes child paths
             for sub, relative in self.get_kids(prior_path, side):
-                if sub is ent:
-                    # the folder itself moved beneath its own prior path: it is not its own child
+                if any(sub is moving for moving in self._kids_moving):
+                    # the folder itself (moved beneath its own prior path) or a folder being moved: not a child
                     continue
                 new_path = provider.join(path, relative)
                 if provider.oid_is_path:
